@@ -4,14 +4,27 @@ import PV.C15.Spec
 /-! Driver for C15: answers the same request lines as `harness/src/bin/pvh_c15.rs`. -/
 open PV PV.C15
 
-def showLine (l : Line) : String := s!"{l.offset}:{hex l.text}:{hex l.asStr}"
-
 def showOptNat : Option Nat → String := optStr toString
 def showPair : Option (Nat × Nat) → String := optStr (fun p => s!"{p.1},{p.2}")
 def showRange : Option Range → String := optStr (fun r => s!"{r.start}..{r.stop}")
+def showStr : Option (List Nat) → String := optStr hex
+def showBool (b : Bool) : String := if b then "true" else "false"
+
+/-- offset:full text:text without terminator:end:full_end:range:full_range:full_text_len -/
+def showLine (l : Line) : String :=
+  s!"{l.start}:{hex l.text}:{hex l.asStr}:{showOptNat l.end'}:{showOptNat l.fullEnd}:{showRange l.range}:{showRange l.fullRange}:{l.fullTextLen}"
 
 /-- all boundary offsets of a text, in order -/
 def boundaries (bs : List Nat) : List Nat := (List.range (bs.length + 1)).filter (isBoundary bs)
+
+/-- what the harness prints for one `SourceFile` (they all carry the same index) -/
+def describeFile (bs : List Nat) : String :=
+  let n := lineCount bs
+  let st := (List.range n).map fun r => showOptNat (lineStart bs r)
+  let first := match lineRange bs 0 with
+    | some (a, b) => SourceCode.slice bs ⟨a, b⟩
+    | none => none
+  s!"{n}:{joinSep "," st}:{showStr first}:{hex bs}:662e7079"
 
 def handleLineIdx (bs : List Nat) : String :=
   let starts := lineStarts bs
@@ -20,14 +33,49 @@ def handleLineIdx (bs : List Nat) : String :=
     s!"{o}={showPair (sourceLocation bs o)}/{lineIndex bs o}"
   let lines := (List.range (n + 1)).map fun r =>
     s!"{showOptNat (lineStart bs r)},{showOptNat (lineEnd bs r)},{showPair (lineRange bs r)},{optStr hex (lineText bs r)}"
-  s!"starts={starts} count={n} locs={joinSep ";" locs} lines={joinSep ";" lines}"
+  let cuts := (List.range (bs.length + 2)).map fun o =>
+    s!"{showStr (SourceCode.upTo bs o)}/{showStr (SourceCode.after bs o)}"
+  let f := describeFile bs
+  s!"starts={starts} count={n} locs={joinSep ";" locs} lines={joinSep ";" lines} cuts={joinSep ";" cuts} text={hex bs} dlen={starts.length} file={f}|{f}|{f}|true"
+
+def endingName : LineEnding → String
+  | .lf => "Lf"
+  | .cr => "Cr"
+  | .crlf => "CrLf"
+
+def showEnding (e : LineEnding) : String :=
+  s!"{endingName e},{hex e.asStr},{e.len},{e.textLen},{hex e.asStr}"
+
+/-- run the operations and return the iterator that is left -/
+def runKeep : Iter → List Bool → List (Option Line) × Iter
+  | it, [] => ([], it)
+  | it, op :: ops =>
+    let (r, it') := if op then it.next else it.nextBack
+    let (rs, it'') := runKeep it' ops
+    (r :: rs, it'')
 
 def handleNlIter (bs : List Nat) (off : Nat) (ops : String) : String :=
-  let it := Iter.withOffset bs off
-  let res := it.run (ops.toList.map (· == 'f'))
-  let items := res.map fun (_, r) => optStr showLine r
-  let tl := (trailingLines bs off).map showLine
-  s!"{joinSep ";" items} trailing={joinSep ";" tl}"
+  match Iter.withOffset? bs off with
+  | none => "overflow"
+  | some it =>
+    let (res, rest) := runKeep it (ops.toList.map (· == 'f'))
+    let items := res.map (optStr showLine)
+    let tl := (trailingLines bs off).map showLine
+    let ext := (universalNewlines bs).collect.map showLine
+    let frm := (trailingLinesFrom bs).map showLine
+    let find := optStr (fun (pe : Nat × LineEnding) => s!"{pe.1},{showEnding pe.2}") (findNewlineE bs)
+    s!"{joinSep ";" items} last={optStr showLine rest.last} trailing={joinSep ";" tl} ext={joinSep ";" ext} from={joinSep ";" frm} find={find}"
+
+def handleLine (bs : List Nat) (off : Nat) (cmp : List Nat) : String :=
+  let l : Line := ⟨bs, off⟩
+  s!"{showLine l} deref={hex l.asStr} eq={showBool (l.eqStr cmp)},{showBool (l.eqStr cmp)},{showBool (l.eqStr bs)},{showBool (l.eqStr l.asStr)} same=true"
+
+def showBound : Bound → String
+  | .included x => s!"I{x}"
+  | .excluded x => s!"E{x}"
+  | .unbounded => "U"
+
+def rep (n : Nat) (s : String) : String := joinSep "|" (List.replicate n s)
 
 def rangeOps (a b c d : Nat) (text : List Nat) : String :=
   match Range.new? a b, Range.new? c d with
@@ -43,10 +91,51 @@ def rangeOps (a b c d : Nat) (text : List Nat) : String :=
       s!"ord={r.ordering o}",
       s!"at={showRange (Range.at? a c)}",
       s!"upto={showRange (some (Range.upTo b))}",
-      s!"index={optStr hex (r.index text)}"]
+      s!"substart={showRange (r.subStart c)}",
+      s!"addstart={showRange (r.addStart c)}",
+      s!"subend={showRange (r.subEnd c)}",
+      s!"addend={showRange (r.addEnd c)}",
+      s!"addop={rep 4 (showRange (r.addOp c))}",
+      s!"subop={rep 4 (showRange (r.subOp c))}",
+      s!"bounds={showBound r.startBound},{showBound r.endBound}",
+      s!"rbcontains={r.boundsContains c}",
+      s!"index={showStr (r.index text)}",
+      s!"sindex={showStr (r.index text)}",
+      s!"imut={showStr (r.indexMutUpper text)}",
+      s!"simut={showStr (r.indexMutUpper text)}"]
     joinSep " " fields
   | none, _ => "new=none"
   | _, none => "other=none"
+
+def sizeOps (a b : Nat) (text : List Nat) : String :=
+  let chars := (utf8Decode text).getD []
+  let ofc := if chars.isEmpty then "-" else joinSep "," (chars.map fun c => toString (Size.ofChar c))
+  let sums := [Size.sum [a, b], Size.sum [a, b, a], Size.sum (chars.map Size.ofChar), Size.sum []]
+  let n := Size.ofStr text
+  let tryFrom := if a + b ≤ u32Max then toString (a + b) else "none"
+  s!"add={rep 6 (showOptNat (Size.add a b))} sub={rep 6 (showOptNat (Size.sub a b))} cadd={showOptNat (Size.checkedAdd a b)} csub={showOptNat (Size.checkedSub a b)} of={n},{n},{n} ofc={ofc} sum={joinSep "|" (sums.map showOptNat)} u32={a},{a} try={tryFrom}"
+
+def oneIdx (v rhs : Nat) : String :=
+  let try_ := match OneIndexed.tryFromZeroIndexed v with
+    | some x => toString x
+    | none => s!"err{v}"
+  let head := s!"try={try_} min=1 max={u32Max} dflt={SourceLocation.default.1},{SourceLocation.default.2}"
+  if v > u32Max then head else
+  let new := OneIndexed.new? v
+  let fzi := OneIndexed.fromZeroIndexed v
+  let one := optStr (fun (o : Nat) =>
+    let z := OneIndexed.toZeroIndexed o
+    s!"{z},{z},{OneIndexed.toUsize o},{OneIndexed.saturatingAdd o rhs},{OneIndexed.saturatingSub o rhs},{OneIndexed.fromZeroIndexed z}") new
+  s!"{head} new={showOptNat new} fzi={fzi} back={OneIndexed.toZeroIndexed fzi} one={one}"
+
+def handleSlices (bs : List Nat) : String :=
+  let n := bs.length + 1
+  let pts := List.range (n + 1)
+  let items := pts.flatMap fun a => pts.map fun b =>
+    match Range.new? a b with
+    | some r => showStr (SourceCode.slice bs r)
+    | none => "none"
+  joinSep ";" items
 
 def handle : List String → String
   | ["lineidx", t] => match unhex t with
@@ -55,9 +144,21 @@ def handle : List String → String
   | ["nliter", t, off, ops] => match unhex t, off.toNat? with
     | some bs, some o => handleNlIter bs o (if ops == "-" then "" else ops)
     | _, _ => "bad-request"
+  | ["line", t, off, c] => match unhex t, off.toNat?, unhex c with
+    | some bs, some o, some c => handleLine bs o c
+    | _, _, _ => "bad-request"
   | ["range", a, b, c, d, t] => match a.toNat?, b.toNat?, c.toNat?, d.toNat?, unhex t with
     | some a, some b, some c, some d, some t => rangeOps a b c d t
     | _, _, _, _, _ => "bad-request"
+  | ["size", a, b, t] => match a.toNat?, b.toNat?, unhex t with
+    | some a, some b, some t => sizeOps a b t
+    | _, _, _ => "bad-request"
+  | ["oneidx", v, rhs] => match v.toNat?, rhs.toNat? with
+    | some v, some r => oneIdx v r
+    | _, _ => "bad-request"
+  | ["slices", t] => match unhex t with
+    | some bs => handleSlices bs
+    | none => "bad-request"
   | _ => "bad-request"
 
 def main : IO Unit := protoLoop handle
